@@ -24,6 +24,8 @@ int pmc_verbose(void);
 // (stable across schedules, used to match known findings), detail is free text.
 void pmc_violation(const char* sig, const char* fmt, ...) __attribute__((format(printf, 2, 3), noreturn));
 // The harness/model itself is broken (not a property violation): check exits 2.
+// history marker: prefixed to the signature of whatever violation / crash ends this execution (reset for every execution)
+void pmc_tag(const char* tag);
 void pmc_broken(const char* fmt, ...) __attribute__((format(printf, 1, 2), noreturn));
 // Normal end of an execution (flushes, _exit(0)).
 void pmc_done(void) __attribute__((noreturn));
